@@ -24,6 +24,7 @@ pub fn cwnd_violations(p: &StdPair) -> (Vec<(String, String)>, u64) {
     let mut cur_batch = u64::MAX;
     let mut running = 0u64;
     let mut probes_left = 0u32;
+    let mut floor_reported = false;
     for r in &p.w.recs {
         let Rec::Emit { node, ch: Some(_), data, dst, batch, mtu_before, pre: Some(pre), t, idx, .. } = r else { continue };
         if *batch != cur_batch {
@@ -40,6 +41,14 @@ pub fn cwnd_violations(p: &StdPair) -> (Vec<(String, String)>, u64) {
         let mtu_probe = data.len() > *mtu_before as usize
             && frames.iter().all(|f| matches!(f, WFrame::Ping | WFrame::ImmediateAck | WFrame::Padding(_)));
         let len = data.len() as u64;
+        // quinn's own controllers never report less than two datagrams of the CURRENT path MTU
+        if *node < 2 && p.w.builtin_ctl[*node] && pre.cwnd < 2 * *mtu_before as u64 && !floor_reported {
+            floor_reported = true;
+            out.push((
+                "window-below-two-datagrams-of-current-mtu".into(),
+                format!("node{node} at {t:?}: congestion window {} with a path MTU of {mtu_before} (two datagrams = {})", pre.cwnd, 2 * *mtu_before as u64),
+            ));
+        }
         if ack_eliciting && !has_close && !has_path && !mtu_probe {
             if running + len >= pre.cwnd {
                 if probes_left > 0 {
@@ -121,6 +130,9 @@ fn mk_cases(thorough: bool) -> Vec<ECase> {
         }
     }
     add("cubic/W6", &|_| {}, Wl::W6, vec![], (8, 28));
+    // the smallest legal initial window: the floor of two datagrams has to follow MTU discovery upwards
+    add("cubic-iw2400/W6", &|c| { c.client.controller = Ctl::CubicIw(2400); c.server.controller = Ctl::CubicIw(2400); }, Wl::W6, vec![], (8, 40));
+    add("cubic-iw2400/W2", &|c| { c.client.controller = Ctl::CubicIw(2400); c.server.controller = Ctl::CubicIw(2400); }, Wl::W2, vec![], (8, 40));
     add("newreno/W6", &|c| c.client.controller = Ctl::NewReno, Wl::W6, vec![], (8, 28));
     add("bbr/W6", &|c| c.client.controller = Ctl::Bbr, Wl::W6, vec![], (8, 28));
     add("cubic/W6/ce@14", &|_| {}, Wl::W6, vec![(14, Op::CeFrom(6))], (8, 28));
